@@ -28,7 +28,8 @@ func init() {
 	replayers["c17"] = func(w map[string]any) string {
 		s, _ := w["stream"].(string)
 		reuse, _ := w["reuse"].(bool)
-		return c17Stream(core.UnHex(s), nil, reuse)
+		same, _ := w["same_buffer"].(bool)
+		return c17Stream(core.UnHex(s), nil, reuse, same)
 	}
 }
 
@@ -74,9 +75,18 @@ func c17Stream(stream []byte, pks []ref.RTP, reuse ...bool) string {
 	if len(reuse) > 0 && reuse[0] {
 		shared = jt1078.NewPacket() // one object for the whole stream, as a decoding loop would use it
 	}
+	// reuse[1]: read-loop presentation — the remaining data is copied to the START of one scratch buffer before every step, so
+	// that consecutive packets occupy the same memory (whatever the Packet remembers by reference sees the next packet's bytes)
+	var scratch []byte
+	if len(reuse) > 1 && reuse[1] {
+		scratch = make([]byte, len(stream))
+	}
 	for len(rest) > 0 {
 		kind, total := ref.ClassifyRTP(rest)
 		in := make([]byte, len(rest))
+		if scratch != nil {
+			in = scratch[:len(rest):len(rest)]
+		}
 		copy(in, rest)
 		p := jt1078.NewPacket()
 		if shared != nil {
@@ -159,7 +169,11 @@ func c17Stream(stream []byte, pks []ref.RTP, reuse ...bool) string {
 			bad = "frame intervals reported for a non-video frame"
 		}
 		if bad != "" && shared != nil {
-			bad += " (Packet object reused across steps)"
+			if scratch != nil {
+				bad += " (Packet object and input buffer reused across steps)"
+			} else {
+				bad += " (Packet object reused across steps)"
+			}
 		}
 		if bad == "" && pks != nil && step < len(pks) {
 			k := pks[step]
@@ -220,6 +234,16 @@ func c17Worker(c *core.Collector, x *Ctx) {
 			if bad != "" {
 				c.Violate("rtp|"+bad, "jt1078 Decode vs reference layout: "+bad+" ("+gen+")", map[string]any{"kind": "c17", "stream": core.Hex(stream), "gen": gen, "reuse": true})
 				return
+			}
+			if len(stream) <= 20000 || gen == "long-stream" {
+				if guard(c, w2, func() { bad = c17Stream(stream, pks, true, true) }) {
+					return
+				}
+				c.Count("streams_decoded_read_loop_style", 1)
+				if bad != "" {
+					c.Violate("rtp|"+bad, "jt1078 Decode vs reference layout: "+bad+" ("+gen+")", map[string]any{"kind": "c17", "stream": core.Hex(stream), "gen": gen, "reuse": true, "same_buffer": true})
+					return
+				}
 			}
 		}
 		steps.Add(int64(len(pks)) + 1)
